@@ -806,7 +806,7 @@ def gen_algo_case(seed, idx, algo=None, force=None, monitors_on=True, T=None, ho
                     case.fail("C03", sig, det, step="init", algo=ad.name, via="algorithm", kind=kind)
         if "after_init" in hooks:
             hooks["after_init"](ctx)
-        for i in range(T):
+        for i in range(T if not force.get("max_rounds") else min(T, force["max_rounds"])):
             t = labels[i] if labels else t0 + i
             if i in query_rounds:
                 mark, rmark = len(glog), len(rng.log)
